@@ -16,6 +16,11 @@ well-formedness of the tree is needed for (i)–(iii) (`wfB` is only used to rea
 namespace Pepper.C17
 open Pepper Pepper.Finish Pepper.Comp Pepper.Sys
 
+/-- The hypothesis `t.lawful` of the detection theorems below holds for the finisher's own table, which is
+    regenerated from `DNA_classes.py` on every run: no duplicated key, complementing is an involution (so no two
+    letters share a complement) and denotes the complements of the bases. -/
+theorem finisher_table_lawful : Generated.dnaTable.lawful = true := by decide
+
 /-- (i) Finish never writes a broken relation — for ARBITRARY design maps, not only single corruptions.
     If `apply` succeeds on `d'` then (`Relations`): the output is one share per component, in order; in each
     share every non-dummy atomic sequence has a record of its declared length whose starred record is its
